@@ -101,6 +101,14 @@ func registerRich(regTool func(*mcp.Tool, func(context.Context, *mcp.CallToolReq
 		r.StructuredContent = map[string]interface{}{"x": math.NaN()}
 		return r, nil
 	})
+	// t-num: what a handler that works with a numeric argument sees (JSON numbers are float64 for every transport)
+	regTool(mcp.NewTool("t-num", mcp.WithNumber("x")), func(ctx context.Context, req *mcp.CallToolRequest) (*mcp.CallToolResult, error) {
+		x, ok := req.Params.Arguments["x"].(float64)
+		if !ok {
+			return nil, fmt.Errorf("x is a %T, not a number", req.Params.Arguments["x"])
+		}
+		return mcp.NewTextResult(fmt.Sprintf("N:%.3f", x)), nil
+	})
 	regTool(mcp.NewTool("t-mixed"), func(ctx context.Context, req *mcp.CallToolRequest) (*mcp.CallToolResult, error) {
 		return &mcp.CallToolResult{Content: []mcp.Content{mcp.NewTextContent("a"), mcp.NewImageContent("aGk=", "image/png"),
 			mcp.NewEmbeddedResource(mcp.TextResourceContents{URI: "r://e", Text: "emb"})}}, nil
